@@ -154,6 +154,9 @@ EVENTS = {
     "np.rho/.eta/.tau": lambda: (_n4().rho, _n4().eta, _n4().tau, _n4m().t, _n4m().Mt, _n4().rapidity),
     "np.rotate/scale/unit": lambda: (_n4().rotateX(0.3), _n4().scale(-2.0), _n4().unit(), _n4m().unit(), _n4().to_beta3()),
     "np.add/dot/boost": lambda: (_n4() + _n4(), _n4().dot(_n4()), _n4().boost_p4(_n4m()), _n4m().boostCM_of_p4(_n4m())),
+    "np delta*/predicates (rows in the x-y plane and at the origin)": lambda: (_n4().deltaeta(_n4()[::-1]), _n4().deltaphi(_n4()[::-1]), _n4().deltaangle(_n4()[::-1]), _n4().deltaR2(_n4()[::-1]), _n4().deltaRapidityPhi(_n4()[::-1]),
+                                                                               _n4().is_parallel(_n4()[::-1]), _n4().is_perpendicular(_n4()[::-1]), _n4().is_timelike(), _n4().to_rhophietatau().deltaeta(_n4()), _n4().costheta, _n4().cottheta, _n4().theta, _n4().beta, _n4().gamma),
+    "ak delta*/predicates": lambda: (_a4().deltaeta(_a4()), _a4().deltaangle(_a4()), _a4().deltaR(_a4()), _a4().is_antiparallel(_a4()), _a4().costheta, _a4().cottheta, _a4().beta),
     "np x obj": lambda: (_n4().add(_o4()), _o4tau().subtract(_n4m()), _n4().deltaR(_o3())),
     "np.to_*": lambda: (_n4().to_rhophietatau(), _n4m().to_xyzt(), _n4().to_Vector3D(), _n4().to_Vector2D().to_Vector4D(z=1.0, t=2.0)),
     "np ==/isclose/allclose": lambda: (_n4() == _n4(), np.isclose(_n4(), _n4()), np.allclose(_n4(), _n4()), _n4().allclose(_n4())),
@@ -181,6 +184,10 @@ EVENTS = {
     "ak pickle/to_list": lambda: (pickle.loads(pickle.dumps(_a4())), _a4().to_list(), ak.to_numpy(_a4().rho[0])),
     # sympy backend
     "sympy": _sympy_event,
+    # the same operation with scalars that compare equal but are of different kinds (2 == 2.0 == Integer(2)): expressions differ
+    "sympy scale(2) int": lambda: _sympy_scale(2),
+    "sympy scale(2.0) float": lambda: _sympy_scale(2.0),
+    "sympy scale(Integer(2))": lambda: _sympy_scale(__import__("sympy").Integer(2)),
     # registries
     "register_awkward()": lambda: vector.register_awkward(),
     "register_numba()": lambda: vector.register_numba(),
@@ -196,6 +203,14 @@ def _same_numbers(o):
 def _n_large():
     k = np.arange(12, dtype=np.float64)
     return vector.array({"px": 1.5 + k, "py": 0.75 - k, "pz": 0.875 * k, "E": 20.0 + k})
+
+
+def _sympy_scale(k):
+    import sympy
+
+    x, y, z = sympy.symbols("x y z", real=True)
+    v = vector.VectorSympy3D(x=x, y=y, z=z)
+    return v.scale(k), v.rotateZ(k), v * k
 
 
 def _inplace():
